@@ -1,5 +1,6 @@
 import Driver.Util
 import CRModel.TrafficLight
+import CRModel.TrafficLightHist
 open Lean CR.Drv
 
 namespace CR.Drv.C17
@@ -8,6 +9,34 @@ def elem (j : Json) : P CR.TL.Elem := do
   match ← asArr j with
   | [s, d] => pure (← asNat s, ← asInt d)
   | _ => throw "elem: expected [state, duration]"
+
+/-- one history operation: `["q", ts] | ["read"] | ["off", n] | ["es", es, cls] | ["dur", i, d] | ["state", i, s] |
+    ["app", e, c] | ["fresh", es, cls, off] | ["keep", <label>]` -/
+def histOp (j : Json) : P CR.TL.Hist.Op := do
+  match ← asArr j with
+  | [k, a] =>
+    match ← asStr k with
+    | "q" => pure (.query (← listOf asInt a))
+    | "off" => pure (.setOff (← asInt a))
+    | "keep" => pure .keep
+    | o => throw s!"C17 hist: unknown unary op {o}"
+  | [k] =>
+    match ← asStr k with
+    | "read" => pure .readTable
+    | "keep" => pure .keep
+    | o => throw s!"C17 hist: unknown nullary op {o}"
+  | [k, a, b] =>
+    match ← asStr k with
+    | "es" => pure (.setEs (← listOf elem a) (← listOf asNat b))
+    | "dur" => pure (.elDur (← asNat a) (← asInt b))
+    | "state" => pure (.elState (← asNat a) (← asNat b))
+    | "app" => pure (.appendInPlace (← elem a) (← asNat b))
+    | o => throw s!"C17 hist: unknown binary op {o}"
+  | [k, a, b, c] =>
+    match ← asStr k with
+    | "fresh" => pure (.fresh (← listOf elem a) (← listOf asNat b) (← asInt c))
+    | o => throw s!"C17 hist: unknown ternary op {o}"
+  | _ => throw "C17 hist: malformed op"
 
 def handle (op : String) (a : Json) : P Json := do
   match op with
@@ -21,6 +50,14 @@ def handle (op : String) (a : Json) : P Json := do
     let off ← getInt a "off"
     let ts ← getList asInt a "ts"
     pure <| Json.arr (ts.map fun t => resJ natJ (CR.TL.lightStateAt es off t)).toArray
+  | "hist" =>
+    -- a history on one cycle object (memo included), as the CURRENT code runs it (`CR.TL.Hist.validates`)
+    let es ← getList elem a "es"
+    let cls ← getList asNat a "cls"
+    let off ← getInt a "off"
+    let ops ← getList histOp a "ops"
+    let out := CR.TL.Hist.run (CR.TL.Hist.Obj.fresh es cls off) ops
+    pure <| Json.arr (out.map fun r => Json.arr (r.map (resJ natJ)).toArray).toArray
   | "spec_at" =>
     let es ← getList elem a "es"
     let ks ← getList asInt a "ks"
